@@ -32,17 +32,21 @@ def count {G : Type} (v : List G) : Nat := v.length
 def reset {G : Type} (_ : TF G) : TF G := ⟨[], 0, 0⟩
 
 /-- The loop of `insertStringAtCursor`: copies clusters while `len(rest) > 0 && i < tf.cursor`,
-then writes `s` and the remainder. -/
-def insertLoop {G : Type} (s : List G) (cursor : Nat) : List G → Nat → List G → List G
-  | [], _, next => next ++ s
+then writes `s`.  Result: the builder `next` at the moment the cursor is set (clusters copied so far
+followed by `s`) and the remainder `rest` that is written after it. -/
+def insertLoop {G : Type} (s : List G) (cursor : Nat) : List G → Nat → List G → List G × List G
+  | [], _, next => (next ++ s, [])
   | c :: rest, i, next =>
     if i < cursor then insertLoop s cursor rest (i + 1) (next ++ [c])
-    else next ++ s ++ (c :: rest)
+    else (next ++ s, c :: rest)
 
-/-- `InsertStringAtCursor` (= `insertStringAtCursor` + `tf.n = graphemeCountInString(tf.Value)`). -/
+/-- `InsertStringAtCursor` (= `insertStringAtCursor` + `tf.n = graphemeCountInString(tf.Value)`).
+With the F217 fix the cursor is `graphemeCountInString(next.String())` taken right after `s` is
+written (before: `tf.cursor += graphemeCountInString(s)`). -/
 def insertString {G : Type} (tf : TF G) (s : List G) : TF G :=
-  let v := insertLoop s tf.cursor tf.value 0 []
-  ⟨v, tf.cursor + count s, count v⟩
+  let r := insertLoop s tf.cursor tf.value 0 []
+  let v := r.1 ++ r.2
+  ⟨v, count r.1, count v⟩
 
 /-- `CursorTo`: returns the new state and whether a redraw command was returned. -/
 def cursorTo {G : Type} (tf : TF G) (i : Nat) : TF G × Bool :=
